@@ -693,18 +693,18 @@ Theorem C15_ral_receive_is_the_translated_entry_point : forall recover keccak ct
 Proof. exact RalVerifyGovProofs.ral_receive_is_the_translated_source. Qed.
 
 (* C15_contract_envelope_parser_accepts_published, through the translated entry point: what a quorum of guardians publishes for a
-   governance request is accepted by governance.ral parseAndVerifyVAA(data, true) — whatever the previous set, its expiry and the
-   block time are — and the values handed to the governance checks are the request's *)
-Theorem C15_published_vaa_accepted_through_the_translated_entry_point : forall recover keccak ct w K pidx pset now pexp,
+   governance request is accepted by governance.ral parseAndVerifyVAA(data, isGovernanceVAA) for either flag (token-bridge callers pass false) — whatever the previous
+   set, its expiry and the block time are — and the values handed to the governance checks are the request's *)
+Theorem C15_published_vaa_accepted_through_the_translated_entry_point : forall recover keccak ct w K pidx pset now pexp gov,
   qvalid recover keccak w K -> wf w -> Forall (fun k => length k = 20%nat) K -> (0 < length K <= 255)%nat ->
   rc_gs_index ct = gsidx w -> rc_guardians ct = guardians_of K ->
   RalVerifyModel.ral_source keccak (eth_ec_recover recover)
     {| RalVerifyModel.gs_cur_idx := rc_gs_index ct; RalVerifyModel.gs_cur := rc_guardians ct; RalVerifyModel.gs_prev_idx := pidx;
-       RalVerifyModel.gs_prev := pset; RalVerifyModel.gs_now := now; RalVerifyModel.gs_prev_exp := pexp |} true (marshal w) =
+       RalVerifyModel.gs_prev := pset; RalVerifyModel.gs_now := now; RalVerifyModel.gs_prev_exp := pexp |} gov (marshal w) =
   Some [RZ (echain w); RZ (tchain w); RB (eaddr w); RZ (seq w); RB (payload w)].
 Proof.
-  intros recover keccak ct w K pidx pset now pexp Hq W FK LK Hgi Hg.
-  apply (RalVerifyGovProofs.ral_source_accepts_published recover keccak ct _ w K Hq W FK LK Hgi Hg); reflexivity.
+  intros recover keccak ct w K pidx pset now pexp gov Hq W FK LK Hgi Hg.
+  apply (RalVerifyGovProofs.ral_source_accepts_published recover keccak ct _ gov w K Hq W FK LK Hgi Hg); reflexivity.
 Qed.
 
 (* non-vacuity: the example request of above (gx_v, operators 0..2 of gx_G signing with the toy oracles) goes through the translated
